@@ -26,6 +26,32 @@ pub struct InstructionMatch
 
 impl InstructionMatch
 {
+    /// Gives every argument (nested ones too) the same span. The text
+    /// matched inside an `asm` block after substitution stands in no
+    /// file as it is: offsets into it are not offsets into a file
+    pub fn set_argument_spans(&mut self, span: diagn::Span)
+    {
+        for arg in &mut self.args
+        {
+            arg.span = span;
+
+            match arg.kind
+            {
+                InstructionArgumentKind::Expr(ref mut expr) =>
+                {
+                    let relocated = std::mem::replace(expr, expr::Expr::new_dummy())
+                        .with_all_spans(span);
+
+                    *expr = relocated;
+                }
+
+                InstructionArgumentKind::Nested(ref mut nested) =>
+                    nested.set_argument_spans(span),
+            }
+        }
+    }
+
+
     pub fn is_same(&self, other: &InstructionMatch) -> bool
     {
         self.ruledef_ref.0 == other.ruledef_ref.0 &&
